@@ -269,7 +269,7 @@ Fixpoint gdec (B : bindings) (fuel : nat) (t : gty) {struct fuel} : M value :=
         | None => mfail EModel
         end
     | GStruct fs => dom r <- dec_struct (gdec B k) fs []; mret (VRec "" r)
-    | GPtr _ => mpanic PNil      (* decode through a nil pointer: reflect.New of a zero Value *)
+    | GPtr _ => mfail EOther     (* decode: kind Pointer falls to "type ptr not implemented" *)
     | GSumTag | GOther _ => mfail EModel
     end
   end.
